@@ -392,12 +392,24 @@ fn duration_case(check: &Check, rng: &mut Rng) {
             break;
         }
     }
+    // half of the cases: one client finishes writing (EOF in that direction), the other direction stays open and idle
+    let half_closed = rng.bool();
+    if !ended && half_closed {
+        let s = if rng.bool() { &mut a } else { &mut b };
+        s.to_relay.close();
+        s.closed = true;
+        cx.log.push(format!("client {} closes its write side", s.name));
+        ended = step(&mut cx, &mut a, &mut b, "after half-close");
+        check.count("duration_cases_half_closed", 1);
+    }
     if !ended {
         if block_on_timeout(early, Duration::from_secs(5)).is_none() {
             check.inconclusive("C49 early canary watchdog");
             return;
         }
-        write_some(&mut a, 10);
+        if !a.closed {
+            write_some(&mut a, 10);
+        }
         ended = step(&mut cx, &mut a, &mut b, "after 0.6 x duration");
     }
     if !ended {
@@ -405,7 +417,7 @@ fn duration_case(check: &Check, rng: &mut Rng) {
             check.inconclusive("C49 canary watchdog");
             return;
         }
-        if rng.bool() {
+        if rng.bool() && !b.closed && !half_closed {
             write_some(&mut b, 10);
         }
         ended = step(&mut cx, &mut a, &mut b, "after canary (duration + 5 ms)");
